@@ -5,7 +5,9 @@
   (rounding-error bounds for the tick path progress and the tick time, via Lemmas/FloatErrMul.lean,
   Lemmas/FloatErrRange.lean), Props/C20IeeeForms.lean (head / repeats / last tick / tail on doubles against their closed
   forms) and Props/C20IeeeFormsOrder.lean (which order facts between them survive rounding, witnesses for those that do
-  not). All in namespace Rosu.C20.
+  not), Props/C20IeeeOrder2.lean and Props/C20IeeeOrder3.lean (repeat `≤` tail on doubles: refuted in general, proved
+  outside a band of span durations, open inside it for non-negative starts and moderate span counts). All in namespace
+  Rosu.C20.
 -/
 import RosuModel.Props.C20Exact
 import RosuModel.Props.C20Ieee
@@ -15,3 +17,4 @@ import RosuModel.Props.C20IeeeErr2
 import RosuModel.Props.C20IeeeForms
 import RosuModel.Props.C20IeeeFormsOrder
 import RosuModel.Props.C20IeeeOrder2
+import RosuModel.Props.C20IeeeOrder3
